@@ -74,6 +74,12 @@ def Op.writes : Op α → State → Nat → Prop
   | .tset _, σ, k => k ∈ σ.track
   | _, _, _ => False
 
+/-- statements that assign to attributes of existing objects -/
+def assigns : Op α → Bool
+  | .set _ _ _ => true
+  | .tset _ => true
+  | _ => false
+
 theorem push_store (σ : State) (r : Option ObsZ) (k : Nat) (hk : k < σ.store.length) :
     (push (α := α) σ r).1.store[k]? = σ.store[k]? := by
   unfold push
@@ -114,6 +120,43 @@ theorem foldl_set_zone_length (z : Int) (tr : List Nat) (s : List ObsZ) :
     cases hsi : s[i]? with
     | none => rfl
     | some o => simp
+
+end
+
+section
+variable {α : Type} [Add α] [Sub α] [Mul α] [Div α] [LT α] [DecidableLT α] [IntCast α]
+
+/-- the store never shrinks -/
+theorem step_length (trunc : α → Int) (σ : State) (op : Op α) :
+    σ.store.length ≤ (step trunc σ op).1.store.length := by
+  let P : State × Out α → Prop := fun r => σ.store.length ≤ r.1.store.length
+  have hn : P (σ, .err "slot") := Nat.le_refl _
+  have hp : ∀ r : Option ObsZ, P (push (α := α) σ r) := by
+    intro r; cases r <;> simp [P, push]
+  have hpt : ∀ r : Option (List ObsZ), P (pushTrack (α := α) σ r) := by
+    intro r; cases r <;> simp [P, pushTrack]
+  cases op with
+  | new t z => exact hp _
+  | read x => exact hp _
+  | add i u nb => exact withObj_ind σ i _ P hn (fun _ _ => hp _)
+  | conv i z => exact withObj_ind σ i _ P hn (fun _ _ => hp _)
+  | copy i => exact withObj_ind σ i _ P hn (fun _ _ => hp _)
+  | rt i =>
+    refine withObj_ind σ i _ P hn (fun a _ => ?_)
+    simp only [P]
+    cases rtZ (α := α) trunc a <;> simp
+  | set i f v => exact withObj_ind σ i _ P hn (fun _ _ => by simp [P])
+  | abs i => exact withObj_ind σ i _ P hn (fun _ _ => hn)
+  | cmp i j => exact withObj_ind σ i _ P hn (fun _ _ => withObj_ind σ j _ P hn (fun _ _ => hn))
+  | sub i j => exact withObj_ind σ i _ P hn (fun _ _ => withObj_ind σ j _ P hn (fun _ _ => hn))
+  | pz i => exact withObj_ind σ i _ P hn (fun _ _ => hn)
+  | tz i => exact withObj_ind σ i _ P hn (fun _ _ => hn)
+  | dow i => exact withObj_ind σ i _ P hn (fun _ _ => hn)
+  | trk is => simp only [step]; split <;> exact hn
+  | tget => simp only [step]; split <;> exact hn
+  | tset z => exact Nat.le_of_eq (foldl_set_zone_length z σ.track σ.store).symm
+  | tconv z => exact hpt _
+  | tadd nb => exact hpt _
 
 end
 
